@@ -194,6 +194,8 @@ func p384Scalar(kind int, label string) []byte {
 		return bytes.Repeat([]byte{0xff}, 48)
 	case 7: // a 64-byte blind
 		return mc.Fill(seedv, "blind64-"+label, 64)
+	case 8: // 49 bytes, first byte non-zero: just above 2^384
+		return append([]byte{0x01}, mc.Fill(seedv, "blind49-"+label, 48)...)
 	default:
 		v := new(big.Int).SetBytes(mc.Fill(seedv, "sc-"+label, 56))
 		v.Mod(v, new(big.Int).Sub(n, big.NewInt(1)))
@@ -400,7 +402,7 @@ func main() {
 			}
 		}
 		// blind alphabet (incl. encodings of the same scalar with a leading zero byte: same scalar => still authentic)
-		for k := 1; k <= 5; k++ {
+		for k := 1; k <= 8; k++ {
 			c := mk(h, tag+"blind-alphabet")
 			c.Blind = hex.EncodeToString(p384Scalar(k, "alt"))
 			add(c)
